@@ -16,12 +16,17 @@ Sections
   4. inversion: cumulating a change series with the original series as initial condition reproduces it,
      forward and backward, every span / step / negative shift (forward: every keyword shift too);
      stronger initial-condition form for unit-step spans
+  5. several variants: trim removes exactly the rows missing in all variants; variant locality of change, conversion
+     and cumulation (broadcast rule for `initial`); the change depends on the cells only (shared rows do not leak)
+  6. the shift argument as the caller passes it (int / float / keyword / other string); default initial values
+  7. keyword shifts at the series level with the C09 calendar rule made explicit; the neutral-value fill of "tty"
 -/
 import Mathlib.Analysis.SpecialFunctions.Pow.Real
 import Mathlib.Tactic.FieldSimp
 import Mathlib.Tactic.Ring
 import Mathlib.Tactic.Linarith
 import IrisVerif.Lemmas.Temporal
+import IrisVerif.Props.C09
 
 set_option linter.unusedSectionVars false
 set_option linter.unusedVariables false
@@ -1029,5 +1034,372 @@ example : (change exSym .pct (.by_ (-1)) (Ser.ofCells .Q 8080 #[some 1, some 2, 
     (fun o => (o.lo, o.cells)) = some (8081, [some 100, some 100]) := by decide +kernel
 
 example : pickVariant [10, 20] 2 = some 20 ∧ pickVariant [10, 20] 0 = some 10 ∧ pickVariant ([] : List Nat) 1 = none := by decide
+
+/-! ## 5. Several variants: trim, variant locality, rows of other variants do not leak -/
+
+section variants
+variable {α : Type}
+
+/-- **Trim with several variants is invisible**: no cell of any variant changes. -/
+theorem mtrim_get (m : MSer α) (t : Int) (j : Nat) : m.trim.get t j = m.get t j := MSer.get_trim m t j
+
+/-- **Trim removes exactly the leading and trailing rows that are missing in ALL variants.** If the result is not
+empty, its rows lie inside the old rows, its first and its last row each carry an observation in at least one
+variant, and every removed row is missing in every variant; if it is empty, every old row was missing in every
+variant. -/
+theorem mtrim_spec (m : MSer α) :
+    (m.trim.isEmpty = false →
+      m.lo ≤ m.trim.lo ∧ m.trim.hi ≤ m.hi ∧
+      (∃ j, j < m.nv ∧ (m.val m.trim.lo j).isSome = true) ∧ (∃ j, j < m.nv ∧ (m.val m.trim.hi j).isSome = true) ∧
+      ∀ t, m.lo ≤ t → t ≤ m.hi → (t < m.trim.lo ∨ m.trim.hi < t) → ∀ j, j < m.nv → m.val t j = none) ∧
+    (m.trim.isEmpty = true → ∀ t, m.lo ≤ t → t ≤ m.hi → ∀ j, j < m.nv → m.val t j = none) := by
+  rw [MSer.trim_eq]
+  generalize hn : (m.hi + 1 - m.lo).toNat = n
+  cases hf : Ser.firstSomeFrom m.rowMark m.lo n with
+  | none =>
+    have h0 := Ser.firstSomeFrom_none m.rowMark m.lo n hf
+    refine ⟨fun h => by simp [MSer.isEmpty] at h, fun _ t h1 h2 j hj => ?_⟩
+    exact (MSer.rowMark_eq_none m t).mp (h0 t h1 (by omega)) j hj
+  | some a =>
+    obtain ⟨a1, a2, a3⟩ := Ser.firstSomeFrom_some m.rowMark m.lo n a hf
+    have a4 := Ser.firstSomeFrom_isSome m.rowMark m.lo n a hf
+    cases hl : Ser.lastSomeFrom m.rowMark m.hi n with
+    | none =>
+      have h0 := Ser.lastSomeFrom_none m.rowMark m.hi n hl
+      refine ⟨fun h => by simp [MSer.isEmpty] at h, fun _ t h1 h2 j hj => ?_⟩
+      exact (MSer.rowMark_eq_none m t).mp (h0 t (by omega) h2) j hj
+    | some b =>
+      obtain ⟨b1, b2, b3⟩ := Ser.lastSomeFrom_some m.rowMark m.hi n b hl
+      have b4 := Ser.lastSomeFrom_isSome m.rowMark m.hi n b hl
+      refine ⟨fun _ => ⟨a1, b1, MSer.rowMark_isSome m a a4, MSer.rowMark_isSome m b b4, ?_⟩, ?_⟩
+      · intro t h1 h2 h3 j hj
+        rcases h3 with h3 | h3
+        · exact (MSer.rowMark_eq_none m t).mp (a3 t h1 h3) j hj
+        · exact (MSer.rowMark_eq_none m t).mp (b3 t h3 h2) j hj
+      · intro h
+        -- the first marked row is not after the last one, so the result is not empty
+        exfalso
+        simp only [MSer.isEmpty, decide_eq_true_eq] at h
+        have : ¬ b < a := by
+          intro hba
+          have := b3 a hba (by omega)
+          rw [this] at a4; cases a4
+        omega
+
+/-- a column on the shared rows and the same column trimmed on its own have the same cells -/
+theorem column_get (m : MSer α) (j : Nat) (t : Int) : (m.column j).get t = m.get t j := by
+  simp only [MSer.column, Ser.get, MSer.get]
+  by_cases h : m.lo ≤ t ∧ t ≤ m.hi
+  · by_cases hj : j < m.nv
+    · simp [h, hj]
+    · simp [h, hj]
+  · have : ¬ (m.lo ≤ t ∧ t ≤ m.hi ∧ j < m.nv) := fun h' => h ⟨h'.1, h'.2.1⟩
+    simp [h, this]
+
+variable [Add α] [Sub α] [Mul α] [Div α] [NatCast α] [IntCast α]
+
+/-- **Variant locality of the change functions.** On a series with several variants every change function (any
+shift argument) either fails in some variant's computation, or returns a series with the same number of variants
+whose variant `j` is, cell by cell, the change of variant `j` alone (taken on the shared rows). -/
+theorem mchange_variant_local (S : Sym α) (kind : ChangeKind) (a : ShiftArg) (m o : MSer α)
+    (h : mchange S kind a m = .ok o) :
+    o.nv = m.nv ∧ ∀ j, j < m.nv → ∃ oj, changeArg S kind a (m.column j) = .ok oj ∧ ∀ t, o.get t j = oj.get t := by
+  unfold mchange at h
+  cases hm : mapR (fun j => changeArg S kind a (m.column j)) (List.range m.nv) with
+  | error e => simp [hm] at h
+  | ok outs =>
+    simp [hm] at h
+    subst h
+    obtain ⟨hlen, hget⟩ := mapR_ok _ _ outs hm
+    refine ⟨by simp [hlen], fun j hj => ?_⟩
+    obtain ⟨c, hc1, hc2⟩ := hget j (by simpa using hj)
+    refine ⟨c, by simpa using hc1, fun t => ?_⟩
+    rw [MSer.get_ofSers, hc2]; rfl
+
+/-- … and it fails only if the change of one of the variants fails (with that error) -/
+theorem mchange_error (S : Sym α) (kind : ChangeKind) (a : ShiftArg) (m : MSer α) (e : Err)
+    (h : mchange S kind a m = .error e) : ∃ j, j < m.nv ∧ changeArg S kind a (m.column j) = .error e := by
+  unfold mchange at h
+  cases hm : mapR (fun j => changeArg S kind a (m.column j)) (List.range m.nv) with
+  | ok outs => simp [hm] at h
+  | error e' =>
+    simp [hm] at h; subst h
+    obtain ⟨j, hj, hg⟩ := mapR_error _ _ _ hm
+    exact ⟨j, List.mem_range.mp hj, hg⟩
+
+/-- **Variant locality of the conversion helpers.** -/
+theorem mconvert_variant_local (S : Sym α) (c : ConvKind) (m : MSer α) (j : Nat) (hj : j < m.nv) (t : Int) :
+    (mconvert S c m).get t j = (convert S c (m.column j)).get t := by
+  unfold mconvert
+  rw [MSer.get_ofSers]
+  simp [hj]
+
+/-- **Variant locality of the cumulation functions, with the broadcast rule for `initial`.** Variant `j` of the result
+is the cumulation of variant `j` of the change series started from the initial condition `pickVariant initials j`
+(supplied variant `j` while they last, then the last supplied one). -/
+theorem mcum_variant_local (S : Sym α) (kind : CumKind) (a : ShiftArg) (initials : List (Option (Init α)))
+    (span : Option Span) (m o : MSer α) (h : mcum S kind a initials span m = .ok o) :
+    o.nv = m.nv ∧ ∀ j, j < m.nv → ∃ ini oj, pickVariant initials j = some ini ∧
+      cumArg S kind a ini span (m.column j) = .ok oj ∧ ∀ t, o.get t j = oj.get t := by
+  unfold mcum at h
+  generalize hg : (fun j => match pickVariant initials j with
+      | some ini => cumArg S kind a ini span (m.column j)
+      | none => Except.error Err.badInput) = g at h
+  cases hm : mapR g (List.range m.nv) with
+  | error e => simp [hm] at h
+  | ok outs =>
+    simp [hm] at h
+    subst h
+    obtain ⟨hlen, hget⟩ := mapR_ok _ _ outs hm
+    refine ⟨by simp [hlen], fun j hj => ?_⟩
+    obtain ⟨c, hc1, hc2⟩ := hget j (by simpa using hj)
+    subst hg
+    simp only [List.getElem_range] at hc1
+    cases hp : pickVariant initials j with
+    | none => simp [hp] at hc1
+    | some ini =>
+      simp only [hp] at hc1
+      refine ⟨ini, c, rfl, hc1, fun t => ?_⟩
+      rw [MSer.get_ofSers, hc2]; rfl
+
+end variants
+
+/-! ### the rows a variant shares with the others do not leak into its change -/
+
+section congruence
+variable {α : Type} [Add α] [Sub α] [Mul α] [Div α] [NatCast α] [IntCast α]
+
+/-- **The change depends on the cells only.** Two series with the same frequency and the same cells (whatever their
+row ranges -- e.g. a variant on the rows it shares with other variants, and the same variant trimmed on its own) have
+changes with the same cells, for every change function and every shift (calendar keywords: calendar frequencies). -/
+theorem change_cells_only (S : Sym α) (kind : ChangeKind) (by_ : ShiftBy) (s s' : Ser α) (hf : s.freq = s'.freq)
+    (hg : ∀ t, s.get t = s'.get t)
+    (hcal : (by_ = .soy ∨ by_ = .eopy ∨ by_ = .tty) → kind.fixedShift = none → s.freq ≠ .I)
+    (o o' : Ser α) (h : change S kind by_ s = .ok o) (h' : change S kind by_ s' = .ok o') (t : Int) :
+    o.get t = o'.get t := by
+  cases hfx : kind.fixedShift with
+  | some k =>
+    obtain ⟨o1, ho1, _, hg1⟩ := change_annual S kind (by simp [hfx]) s by_
+    obtain ⟨o2, ho2, _, hg2⟩ := change_annual S kind (by simp [hfx]) s' by_
+    rw [h] at ho1; rw [h'] at ho2
+    injection ho1 with e1; injection ho2 with e2
+    subst e1; subst e2
+    rw [hg1, hg2, hf, hg, hg]
+  | none =>
+    cases by_ with
+    | by_ k =>
+      by_cases hk : k < 0
+      · obtain ⟨o1, ho1, _, hg1⟩ := change_int S kind hfx s k hk
+        obtain ⟨o2, ho2, _, hg2⟩ := change_int S kind hfx s' k hk
+        rw [h] at ho1; rw [h'] at ho2
+        injection ho1 with e1; injection ho2 with e2
+        subst e1; subst e2
+        rw [hg1, hg2, hf, hg, hg]
+      · rw [change_rejects_leads S kind hfx s k (by omega)] at h; cases h
+    | yoy =>
+      obtain ⟨o1, ho1, _, hg1⟩ := change_yoy S kind hfx s
+      obtain ⟨o2, ho2, _, hg2⟩ := change_yoy S kind hfx s'
+      rw [h] at ho1; rw [h'] at ho2
+      injection ho1 with e1; injection ho2 with e2
+      subst e1; subst e2
+      rw [hg1, hg2, hf, hg, hg]
+    | soy =>
+      have hI := hcal (Or.inl rfl) hfx
+      obtain ⟨o1, ho1, _, hg1⟩ := change_soy S kind hfx s hI
+      obtain ⟨o2, ho2, _, hg2⟩ := change_soy S kind hfx s' (hf ▸ hI)
+      rw [h] at ho1; rw [h'] at ho2
+      injection ho1 with e1; injection ho2 with e2
+      subst e1; subst e2
+      obtain ⟨q, hq⟩ := (shift_soy_eopy_ok s.freq hI t).1
+      rw [hg1 t q hq, hg2 t q (hf ▸ hq), hf, hg, hg]
+    | eopy =>
+      have hI := hcal (Or.inr (Or.inl rfl)) hfx
+      obtain ⟨o1, ho1, _, hg1⟩ := change_eopy S kind hfx s hI
+      obtain ⟨o2, ho2, _, hg2⟩ := change_eopy S kind hfx s' (hf ▸ hI)
+      rw [h] at ho1; rw [h'] at ho2
+      injection ho1 with e1; injection ho2 with e2
+      subst e1; subst e2
+      obtain ⟨q, hq⟩ := (shift_soy_eopy_ok s.freq hI t).2
+      rw [hg1 t q hq, hg2 t q (hf ▸ hq), hf, hg, hg]
+    | tty =>
+      have hI := hcal (Or.inr (Or.inr rfl)) hfx
+      obtain ⟨o1, ho1, _, hg1, hn1⟩ := change_tty S kind hfx s hI
+      obtain ⟨o2, ho2, _, hg2, hn2⟩ := change_tty S kind hfx s' (hf ▸ hI)
+      rw [h] at ho1; rw [h'] at ho2
+      injection ho1 with e1; injection ho2 with e2
+      subst e1; subst e2
+      rcases shift_ok_or_noPeriod s.freq hI t .tty with ⟨q, hq⟩ | hq
+      · rw [hg1 t q hq, hg2 t q (hf ▸ hq), hf, hg, hg]
+      · rw [hn1 t hq, hn2 t (hf ▸ hq), hf, hg]
+
+end congruence
+
+/-! ## 6. The shift argument as passed by the caller; default initial values -/
+
+section shiftarg
+variable {α : Type} [Add α] [Sub α] [Mul α] [Div α] [NatCast α] [IntCast α]
+
+/-- `_catch_invalid_shift` lets a number through exactly when it is a negative whole number (strings always pass) -/
+theorem shiftArg_invalid_iff :
+    (∀ k : Int, (ShiftArg.int k).invalid = false ↔ k < 0) ∧
+    (∀ q : Rat, (ShiftArg.float q).invalid = false ↔ (q.den = 1 ∧ q < 0)) ∧
+    (∀ b, (ShiftArg.kw b).invalid = false) ∧ ShiftArg.otherString.invalid = false := by
+  refine ⟨fun k => ?_, fun q => ?_, fun _ => rfl, rfl⟩
+  · simp [ShiftArg.invalid]
+  · simp [ShiftArg.invalid, Rat.not_le]
+
+/-- a change function given a Python `int` or a keyword is the change of section 1 -/
+theorem changeArg_int_kw (S : Sym α) (kind : ChangeKind) (s : Ser α) :
+    (∀ k, changeArg S kind (.int k) s = change S kind (.by_ k) s) ∧
+    (∀ b, b ≠ ShiftBy.by_ 0 → (∀ k, b ≠ .by_ k) → changeArg S kind (.kw b) s = change S kind b s) := by
+  constructor
+  · intro k
+    unfold changeArg change
+    cases hfx : kind.fixedShift with
+    | some k' => rfl
+    | none =>
+      by_cases hk : k < 0
+      · have : ¬ (0 ≤ k) := by omega
+        simp [ShiftArg.invalid, this]
+      · have : 0 ≤ k := by omega
+        simp [ShiftArg.invalid, this, temporalChange, validShift, hk]
+  · intro b _ hb
+    unfold changeArg change
+    cases hfx : kind.fixedShift with
+    | some k' => rfl
+    | none => cases b <;> first | rfl | exact absurd rfl (hb _)
+
+/-- **A float-valued shift is rejected by every flexible change function**, also when it is a negative whole number
+(`diff(x, -1.0)`): after the validity test `Series.shift` looks for a method named `_shift_-1.0`. The same for a string
+that is not one of the four keywords. -/
+theorem change_float_or_unknown_string_rejected (S : Sym α) (kind : ChangeKind) (hflex : kind.fixedShift = none)
+    (s : Ser α) : (∀ q, changeArg S kind (.float q) s = .error .badInput) ∧
+      changeArg S kind .otherString s = .error .badInput := by
+  constructor
+  · intro q
+    unfold changeArg
+    rw [hflex]
+    by_cases h : (ShiftArg.float q).invalid = true
+    · simp [h]; rfl
+    · simp [h]; rfl
+  · unfold changeArg
+    rw [hflex]
+    simp [ShiftArg.invalid]; rfl
+
+/-- **A cumulation function takes a negative whole-number float as the integer** (`cum_diff(c, -1.0, …)`), rejects every
+other number that is not a negative integer, and rejects unknown strings. -/
+theorem cumArg_float (S : Sym α) (kind : CumKind) (initial : Option (Init α)) (span : Option Span) (self : Ser α) :
+    (∀ k : Int, k < 0 → cumArg S kind (.float (k : Rat)) initial span self =
+        temporalCumulation S kind (.by_ k) initial span self) ∧
+    (∀ q : Rat, (q.den ≠ 1 ∨ 0 ≤ q) → cumArg S kind (.float q) initial span self = .error .badInput) ∧
+    cumArg S kind .otherString initial span self = .error .badInput := by
+  refine ⟨fun k hk => ?_, fun q hq => ?_, ?_⟩
+  · have h1 : ((k : Rat)).den = 1 := by simp
+    have h2 : ¬ (0 : Rat) ≤ (k : Rat) := by
+      have : (k : Rat) < 0 := by exact_mod_cast hk
+      exact Rat.not_le.mpr this
+    have h3 : ((k : Rat)).num = k := by simp
+    simp [cumArg, ShiftArg.invalid, h1, h2, h3]
+  · have : (ShiftArg.float q).invalid = true := by
+      rcases hq with h | h <;> simp [ShiftArg.invalid, h]
+    simp [cumArg, this]; rfl
+  · simp [cumArg, ShiftArg.invalid]; rfl
+
+/-- **Default initial values** as documented ("0 for diff and diff_log, 1 for pct and roc"), read from the regenerated
+`_CUMULATIVE_FACTORY` -/
+theorem default_initial_documented :
+    CumKind.diff.initial = 0 ∧ CumKind.diffLog.initial = 0 ∧ CumKind.pct.initial = 1 ∧ CumKind.roc.initial = 1 := by
+  decide
+
+/-- … and `initial=None` is that number: the cumulation is the one started from the constant series -/
+theorem cum_default_initial (S : Sym α) (kind : CumKind) (by_ : ShiftBy) (span : Option Span) (self : Ser α) :
+    temporalCumulation S kind by_ none span self =
+      temporalCumulation S kind by_ (some (.scalar ((kind.initial : Int) : α))) span self := rfl
+
+end shiftarg
+
+/-! ## 7. Keyword shifts at the series level, with the calendar rule of C09 made explicit -/
+
+section keywords_explicit
+variable {α : Type} [Add α] [Sub α] [Mul α] [Div α] [NatCast α] [IntCast α]
+
+/-- the model does not restate the calendar: the period-level function used by the series-level shifts is
+`IrisVerif.Dates.Period.shift` of Model/Dates.lean (the subject of the C09 `shift_*` theorems) -/
+theorem series_shift_uses_period_shift (f : Freq) (t : Int) :
+    Ser.refSoy f t = (Period.shift ⟨f, t⟩ .soy).map (·.serial) ∧
+    Ser.refEopy f t = (Period.shift ⟨f, t⟩ .eopy).map (·.serial) ∧
+    Ser.refTty f t = (Period.shift ⟨f, t⟩ .tty).map (·.serial) := ⟨rfl, rfl, rfl⟩
+
+/-- **"soy" and "eopy" on a regular frequency, explicitly**: with `(year, segment)` of period `t` (C09), the reference
+period of `soy` is `t − (segment − 1)` (segment 1 of the same year) and that of `eopy` is `t − segment` (the last
+segment of the previous year) -/
+theorem change_soy_eopy_regular (S : Sym α) (kind : ChangeKind) (hflex : kind.fixedShift = none) (s : Ser α)
+    (hf : s.freq ∈ IrisVerif.Dates.C09.regularFreqs) :
+    ∃ o1 o2, change S kind .soy s = .ok o1 ∧ change S kind .eopy s = .ok o2 ∧
+      ∀ t y seg, toYearSegment ⟨s.freq, t⟩ = .ok (y, seg) →
+        o1.get t = cellFn S kind s.freq (s.get t) (s.get (t - (seg - 1))) ∧
+        o2.get t = cellFn S kind s.freq (s.get t) (s.get (t - seg)) := by
+  have hI : s.freq ≠ .I := by
+    intro h; rw [h] at hf; simp [IrisVerif.Dates.C09.regularFreqs] at hf
+  obtain ⟨o1, ho1, _, hg1⟩ := change_soy S kind hflex s hI
+  obtain ⟨o2, ho2, _, hg2⟩ := change_eopy S kind hflex s hI
+  refine ⟨o1, o2, ho1, ho2, fun t y seg hys => ?_⟩
+  obtain ⟨y1, seg1, q1, h1, hq1, _, _, hs1⟩ := IrisVerif.Dates.C09.shift_soy_regular s.freq hf t
+  obtain ⟨y2, seg2, q2, h2, hq2, _, _, hs2⟩ := IrisVerif.Dates.C09.shift_eopy_regular s.freq hf t
+  rw [hys] at h1 h2
+  injection h1 with h1; injection h2 with h2
+  injection h1 with _ e1; injection h2 with _ e2
+  subst e1; subst e2
+  rw [hg1 t q1 hq1, hg2 t q2 hq2, hs1, hs2]
+  exact ⟨rfl, rfl⟩
+
+/-- **"tty", explicitly, including the neutral-value fill**: in a period with segment > 1 the reference is the previous
+period; in a start-of-year period (segment 1) the reference value is the method's neutral value -/
+theorem change_tty_explicit (S : Sym α) (kind : ChangeKind) (hflex : kind.fixedShift = none) (s : Ser α)
+    (hf : s.freq ≠ .I) :
+    ∃ o, change S kind .tty s = .ok o ∧ ∀ t y seg, toYearSegment ⟨s.freq, t⟩ = .ok (y, seg) →
+      (1 < seg → o.get t = cellFn S kind s.freq (s.get t) (s.get (t - 1))) ∧
+      (seg ≤ 1 → o.get t = cellFn S kind s.freq (s.get t) (kind.neutral.map (fun (n : Int) => (n : α)))) := by
+  obtain ⟨o, ho, _, hg, hn⟩ := change_tty S kind hflex s hf
+  refine ⟨o, ho, fun t y seg hys => ⟨fun hseg => ?_, fun hseg => ?_⟩⟩
+  · have : createTty ⟨s.freq, t⟩ = .ok ⟨s.freq, t + -1⟩ := by
+      simp [createTty, hys, bind, Except.bind, pure, Except.pure, hseg, Period.add]
+    rw [hg t _ this]
+    have e : t + -1 = t - 1 := by omega
+    simp [e]
+  · have : createTty ⟨s.freq, t⟩ = .error .noPeriod := by
+      have : ¬ seg > 1 := by omega
+      simp [createTty, hys, bind, Except.bind, this, throw, throwThe, MonadExceptOf.throw]
+    exact hn t this
+
+end keywords_explicit
+
+/-- **The neutral-value fill of "tty" for the three neutral values 0 / 1 / none**, at the series level over a field:
+in a start-of-year period `diff` returns `x_t − 0 = x_t`, `roc` returns `x_t / 1 = x_t`, `pct` (neutral `None`) is
+missing -/
+theorem tty_neutral_fill {K : Type} [Field K] (S : Sym K) (hz : ZeroTest S) (s : Ser K) (hf : s.freq ≠ .I) :
+    ∃ od orr op, change S .diff .tty s = .ok od ∧ change S .roc .tty s = .ok orr ∧ change S .pct .tty s = .ok op ∧
+      ∀ t y x, toYearSegment ⟨s.freq, t⟩ = .ok (y, 1) → s.get t = some x →
+        od.get t = some x ∧ orr.get t = some x ∧ op.get t = none := by
+  obtain ⟨od, hod, hd⟩ := change_tty_explicit S .diff rfl s hf
+  obtain ⟨orr, hor, hr⟩ := change_tty_explicit S .roc rfl s hf
+  obtain ⟨op, hop, hp⟩ := change_tty_explicit S .pct rfl s hf
+  refine ⟨od, orr, op, hod, hor, hop, fun t y x hys hx => ?_⟩
+  obtain ⟨h1, h2, h3⟩ := tty_start_of_year S hz s.freq x
+  rw [(hd t y 1 hys).2 (by omega), (hr t y 1 hys).2 (by omega), (hp t y 1 hys).2 (by omega), hx]
+  exact ⟨h1, h2, h3⟩
+
+/-! ### non-vacuity of sections 5–7 -/
+
+/-- two variants missing at different edges: rows 0..4, variant 0 observed on 1..2, variant 1 on 2..3 -/
+def exM : MSer ℚ := ⟨.Q, 0, 4, 2, fun t j => if (j = 0 ∧ 1 ≤ t ∧ t ≤ 2) ∨ (j = 1 ∧ 2 ≤ t ∧ t ≤ 3) then some 1 else none⟩
+
+example : exM.trim.isEmpty = false ∧ exM.trim.lo = 1 ∧ exM.trim.hi = 3 := by decide
+example : (mchange exSym .diff (.int (-1)) exM).toOption.map (fun o => (o.nv, o.lo, o.hi)) = some (2, 2, 3) := by
+  decide +kernel
+example : (ShiftArg.float (-1 : Rat)).invalid = false ∧ (ShiftArg.float ((-3 : Rat) / 2)).invalid = true := by
+  decide +kernel
+example : exSer.freq ∈ IrisVerif.Dates.C09.regularFreqs := by decide
+example : toYearSegment ⟨exSer.freq, 8080⟩ = .ok (2020, 1) := by decide
 
 end IrisVerif.C13
